@@ -71,6 +71,44 @@ THEOREMS = [
     ("internal_routes_need_override",
      "forall (c : pcfg) (st : pstate) (m t : bytes) (k : N), benign_host (pc_host c) -> override_of (pc_default_ext c) m (eff_kind t k) = None -> "
      "step_request (strip_internal c) st m t k = step_request c st m t k"),
+    ("opened_objects_confined",
+     "forall (h : host_cfg) (rd : bytes -> option bytes) (tree : node) (on : bool) (fc : fcache) (m : meth) (ov : option bytes) "
+     "(cached : option reply) (p : bytes) (r : reply) (ev : list event) (fc' : fcache) (os : list bytes) (f : bytes) (stP names : list bytes) (isdir : bool), "
+     "benign_host h -> serve_st h rd on fc m ov cached p = (r, ev, fc', os) -> In f os -> "
+     "cwalk tree [] (segments (h_path h ++ [c_slash] ++ h_public h)) = Some stP -> opened tree f = Some (names, isdir) -> "
+     "f = error_path h (r_status r) \\/ isdir = true \\/ "
+     "exists rel : list bytes, rel <> [] /\\ Forall (fun s => proper_name s = true) rel /\\ names = rev stP ++ rel"),
+    # the predicates the statements use, pinned with their bodies
+    ("def_unsafe",
+     "forall d : bytes, unsafe d <-> ((exists a b, d = a ++ [c_dot; c_slash] ++ b) \\/ ~ (exists r, d = c_slash :: r) \\/ "
+     "(exists r, d = c_slash :: c_slash :: r))"),
+    ("def_silent",
+     "forall ev : list event, silent ev <-> forallb (fun e => negb match e with EPrepareSingle _ | EPrepareRun _ | EPrepareFn | EFsRead _ => true "
+     "| _ => false end) ev = true"),
+    ("def_benign_host",
+     "forall h : host_cfg, benign_host h <-> "
+     "((has_dot_slash_b (percent_decode (h_ext_default h)) = false /\\ hd_is c_slash (percent_decode (h_ext_default h)) = false) /\\ "
+     "(has_dot_slash_b (percent_decode (h_folder_default h)) = false /\\ hd_is c_slash (percent_decode (h_folder_default h)) = false))"),
+    ("def_fc_coherent",
+     "forall (rd : bytes -> option bytes) (fc : fcache), fc_coherent rd fc <-> (forall k e, fc_get k fc = Some e -> e = rd k)"),
+    ("def_read_paths",
+     "forall ev : list event, read_paths ev = flat_map (fun e => match e with EFsRead f => [f] | EErrRead f => [f] | _ => [] end) ev"),
+    ("def_answer_ok",
+     "forall (c : pcfg) (P : pos) (x : xval), answer_ok c P x <-> match x with | XL [XN _; XB b; _; _] => "
+     "b = errpage \\/ b = cors_denied \\/ b = [] \\/ (exists k s, In (k, (b, s)) (pc_handlers c)) \\/ "
+     "(exists names : list bytes, names <> [] /\\ Forall (fun s => proper_name s = true) names /\\ descend (fst P) names = Some (File b)) \\/ "
+     "(exists status : N, pc_fs c (error_path (pc_host c) status) = Some b) | _ => True end"),
+    ("def_strip_internal",
+     "forall c : pcfg, pc_handlers (strip_internal c) = pc_handlers c /\\ pc_fs (strip_internal c) = pc_fs c /\\ "
+     "pc_tree (strip_internal c) = pc_tree c /\\ pc_cache (strip_internal c) = pc_cache c /\\ pc_fcache (strip_internal c) = pc_fcache c /\\ "
+     "pc_default_ext (strip_internal c) = pc_default_ext c /\\ "
+     "h_prepare_single (pc_host (strip_internal c)) = filter (fun k => negb (has_dot_slash_b k)) (h_prepare_single (pc_host c)) /\\ "
+     "h_path (pc_host (strip_internal c)) = h_path (pc_host c) /\\ h_public (pc_host (strip_internal c)) = h_public (pc_host c) /\\ "
+     "h_errors (pc_host (strip_internal c)) = h_errors (pc_host c) /\\ h_fs (pc_host (strip_internal c)) = h_fs (pc_host c) /\\ "
+     "h_redirect (pc_host (strip_internal c)) = h_redirect (pc_host c) /\\ h_ext_default (pc_host (strip_internal c)) = h_ext_default (pc_host c) /\\ "
+     "h_folder_default (pc_host (strip_internal c)) = h_folder_default (pc_host c)"),
+    ("def_has_dot_slash_b",
+     "forall d : bytes, has_dot_slash_b d = true <-> exists a b, d = a ++ [c_dot; c_slash] ++ b"),
 ]
 RULE = ("(a) direct calls of kvarn_utils::parse::sanitize_request (on an http::Request built from the target), kvarn_utils::percent_decode, "
         "kvarn_utils::make_path and the path construction of get_response against the Coq model (correspondence) and against the "
@@ -252,7 +290,9 @@ HANDLERS = [(b"/h", b"HANDLER-h", 2), (b"/a/a.html", b"HANDLER-a-a-html", 0), (b
 METHODS = [b"GET", b"HEAD", b"POST", b"OPTIONS"]
 INTERNAL_STATUS = (403, 204)
 PIPE_COMPS = ("pathsanpipe.run", "pathsanpipe.wire", "pathsanpipe.h2")
-SPEC_OF = {"pathsanpipe.run": "pathsanpipe.spec", "pathsanpipe.wire": "pathsanpipe.wire_spec", "pathsanpipe.h2": "pathsanpipe.h2_spec"}
+SYS_COMP = "pathsanpipe.sys"    # the in-process history in a child process under strace: (status, path strings handed to file system calls)
+SPEC_OF = {"pathsanpipe.run": "pathsanpipe.spec", "pathsanpipe.wire": "pathsanpipe.wire_spec", "pathsanpipe.h2": "pathsanpipe.h2_spec",
+           SYS_COMP: "pathsanpipe.spec"}
 ALIAS = "alias"   # pseudo method of a history step (ALIAS, from, to): copy the response-cache entry under `from` to the key `to`
 UNSAFE_TARGETS = [b"/../secret.txt", b"/./cors_fail", b"/./cors_options", b"//etc/passwd", b"/%2e%2e/secret.txt", b"/a/../index.html", b"/../",
                   b"/..%2fsecret.txt", b"/%2e/cors_fail", b"/a/./a", b"/../secret.", b"/.%2e/index.html", b"//", b"/%2f", b"/../../outside.txt",
@@ -576,7 +616,50 @@ def pipe_cases(rng, tier):
         cases.append(pipe_case(rand_cfgkey(rng), history(rng, rng.randrange(10, 31)), "h2-history", "pathsanpipe.h2"))
         cases.append(pipe_case(rand_cfgkey(rng), [(b"GET" if rng.random() < 0.8 else rng.choice(METHODS), climb_target(rng), 0) for _ in range(25)],
                                "h2-climb", "pathsanpipe.h2"))
+    # 12. under a system-call trace (strace -f -e trace=%file on a child harness process): every path string handed to open / stat /
+    #     access ..., successful or not (inotify sees successful opens only)
+    for de in (True, False):
+        for fc in (True, False):
+            cases.append(pipe_case((de, True, fc, b"public", D0, True, False), [(b"GET", t, 0) for t in UNSAFE_TARGETS + COMMON_TARGETS[:20]], "sys-directed", SYS_COMP))
+    for _ in range(8 if q else 150):
+        cases.append(pipe_case(rand_cfgkey(rng), history(rng, 25), "sys-history", SYS_COMP))
+        cases.append(pipe_case(rand_cfgkey(rng), [(b"GET" if rng.random() < 0.8 else rng.choice(METHODS), climb_target(rng), 0) for _ in range(25)], "sys-climb", SYS_COMP))
+        k = rand_cfgkey(rng)
+        cases.append(pipe_case((k[0], k[1], True, k[3], k[4], True, False), fcache_history(rng), "sys-file-cache", SYS_COMP))
     return cases
+
+
+def sys_ok(c, i, s):
+    """the system-call trace: an unsafe request is answered 400 and no file-related system call gets a path below the run directory other
+    than the operator's page for status 400; with benign options every such path string is below the public directory or is the
+    operator's error page for the status of the answer"""
+    rows = _pipe_rows(c, i)
+    sv = kv.xparse(s)
+    if rows is None or sv[0] != "L" or len(sv[1]) != len(rows) + 1:
+        c.meta["why"] = "malformed pipeline output"
+        return False
+    g = _cfg(c)
+    benign = c.meta.get("cfg", (0, 0, 0, 0, D0))[4] in BENIGN_OPTS
+    pub = b"host/" + g["pub"] + b"/"
+    for idx, ((r, o), f) in enumerate(zip(rows, sv[1][1:])):
+        if f in (("N", 97), ("N", 96)):
+            continue
+        if o[0] != "L" or len(o[1]) != 2:
+            c.meta["why"] = "no answer: " + _req_text(c, idx, r) + " -> " + kv.pretty(o)
+            return False
+        status, touched = o[1][0][1], [x[1] for x in o[1][1][1]]
+        if (status == 400) != (f[1] == 1):
+            c.meta["why"] = ("unsafe path not rejected: " if f[1] == 1 else "safe path rejected with 400: ") + _req_text(c, idx, r) + " -> status %d" % status
+            return False
+        page = b"host/" + g["errors"] + b"/%d.html" % status
+        for x in touched:
+            if x == page or (f[1] == 0 and benign and x.startswith(pub)):
+                continue
+            if f[1] == 1 or benign:
+                c.meta["why"] = "a file-related system call was made with the path %r while the request was handled (allowed: %s%r): " % (
+                    x, "" if f[1] == 1 else "below %r and " % pub, page) + _req_text(c, idx, r) + " -> status %d" % status
+                return False
+    return True
 
 
 def _pipe_rows(c, i):
@@ -765,6 +848,8 @@ def generate(rng, tier):
 def spec_ok(c, i, s):
     if c.comp in PIPE_COMPS:
         return pipe_spec_ok(c, i, s)
+    if c.comp == SYS_COMP:
+        return sys_ok(c, i, s)
     if c.comp == "pathsan.batch":
         return i == s
     # direct: implementation (path, decoded, sanitize, utf8 decoding, fs path) against (must be accepted?, must decode?)
@@ -779,7 +864,7 @@ def spec_ok(c, i, s):
 
 
 def signature(c, m):
-    if c.comp in PIPE_COMPS:
+    if c.comp in PIPE_COMPS or c.comp == SYS_COMP:
         return "pipe"
     if c.comp == "pathsan.direct":
         v = kv.xparse(m)
@@ -813,7 +898,9 @@ TECHNIQUE = ("Coq proof (model satisfies spec for all inputs and all histories) 
 
 
 def extra_coverage(cases, impl, model, spec):
-    pc = [c for c in cases if c.comp in PIPE_COMPS]
+    pc = [c for c in cases if c.comp in PIPE_COMPS or c.comp == SYS_COMP]
     return {"targets_in_batches": sum(c.meta.get("targets", 0) for c in cases if c.comp == "pathsan.batch"),
             "pipeline_histories": len(pc), "pipeline_requests": sum(c.meta.get("requests", 0) for c in pc),
-            "of_which_over_loopback_http1": sum(c.meta.get("requests", 0) for c in pc if c.comp == "pathsanpipe.wire")}
+            "of_which_over_loopback_http1": sum(c.meta.get("requests", 0) for c in pc if c.comp == "pathsanpipe.wire"),
+            "of_which_over_tls_http2": sum(c.meta.get("requests", 0) for c in pc if c.comp == "pathsanpipe.h2"),
+            "of_which_under_a_system_call_trace": sum(c.meta.get("requests", 0) for c in pc if c.comp == SYS_COMP)}
